@@ -212,3 +212,128 @@ def check_adaptive_run(model, T, dt, dts, vectorize, method="RK45", rtol=1e-8, a
             fails.append(dict(clause="run: adaptive solution within tolerance of the true solution", var=path, row=bad,
                               observed=float(got[bad]), expected=float(want[bad])))
     return fails
+
+
+def expand_path(model, path):
+    """All state-variable paths addressed by `path` ('all' wildcards at any node level)."""
+    parts = path.split("/")
+    *np_, o, v = parts
+    nodes, _ = mdl.flatten(model)
+    out = []
+    for npath, (node, ops) in nodes.items():
+        segs = npath.split("/")
+        if len(segs) != len(np_):
+            continue
+        if all(a == "all" or a == b for a, b in zip(np_, segs)) and o in node["ops"] and v in ops[o]["vars"]:
+            out.append(f"{npath}/{o}/{v}")
+    return out
+
+
+def check_outputs(model, request, form, vectorize, T=0.5, dt=0.05):
+    """C06-B.  request: dict key->path (form 'dict') or list of paths (form 'list')."""
+    fails = []
+    outputs = dict(request) if form == "dict" else list(request)
+    try:
+        df, _, _ = run_model(model, T, dt, None, "euler", vectorize, outputs=outputs)
+    except Exception as exn:
+        return [dict(clause="run returns a result for a well-formed output request", observed=f"{type(exn).__name__}: {exn}")]
+    _, ref = mdl.spec_fixed_step(model, T, dt, dt, "euler")
+    expected = {}       # column label -> variable path
+    if form == "dict":
+        for key, path in request.items():
+            targets = expand_path(model, path)
+            if "all" in path.split("/") and len(targets) > 1:
+                for t in targets:
+                    *ns, o, v = t.split("/")
+                    expected[(key,) + tuple(ns) + (f"{o}/{v}",)] = t
+            else:
+                for t in targets:
+                    expected[key] = t
+    else:
+        for path in request:
+            for t in expand_path(model, path):
+                expected[t] = t
+    cols = list(df.columns)
+
+    def norm(c):
+        # a plain key next to wildcard keys ends up as tuple(key) padded with NaN in the MultiIndex: accept that spelling
+        if isinstance(c, tuple):
+            parts = [x for x in c if not (isinstance(x, float) and x != x)]
+            if all(isinstance(x, str) and len(x) == 1 for x in parts) and "".join(parts) in expected:
+                return "".join(parts)
+            return tuple(c)
+        return c
+    got_labels = [norm(c) for c in cols]
+    if len(got_labels) != len(set(got_labels)):
+        fails.append(dict(clause="outputs: each requested variable has exactly one column", observed=[str(c) for c in got_labels]))
+    missing = [str(k) for k in expected if k not in got_labels]
+    extra = [str(c) for c in got_labels if c not in expected]
+    if missing or extra:
+        fails.append(dict(clause="outputs: the columns are exactly the requested variables", observed=dict(missing=missing, extra=extra),
+                          expected=[str(k) for k in expected]))
+        return fails
+    for label, path in expected.items():
+        got = np.asarray(df.iloc[:, got_labels.index(label)], dtype=float).reshape(len(df.index), -1)[:, 0]
+        want = ref[path]
+        if got.shape != want.shape or not np.allclose(got, want, rtol=1e-7, atol=1e-10):
+            # which variable does this column actually carry?
+            carries = [p for p, w in ref.items() if w.shape == got.shape and np.allclose(got, w, rtol=1e-7, atol=1e-10)]
+            fails.append(dict(clause="outputs: the column carries the trajectory of the variable named in its label", var=path,
+                              label=str(label), observed=dict(carries=carries, last=float(got[-1]) if len(got) else None),
+                              expected=float(want[-1]) if len(want) else None))
+    return fails
+
+
+def mdl_override(model, path, value):
+    """MDL counterpart of an override addressed to `path` ('all' wildcards; array values one per addressed node in path order)."""
+    import json
+    m = json.loads(json.dumps(model))        # breaks any sharing between sub-models
+    *np_, o, v = path.split("/")
+    targets = []
+
+    def walk(mm, prefix):
+        for label, node in mm.get("nodes", {}).items():
+            segs = prefix + [label]
+            if len(segs) == len(np_) and all(a == "all" or a == b for a, b in zip(np_, segs)) and o in node["ops"] \
+                    and v in mm["ops"][o]["vars"]:
+                targets.append(node)
+        for lab, sub in mm.get("circuits", {}).items():
+            walk(sub, prefix + [lab])
+    walk(m, [])
+    is_arr = hasattr(value, "__len__") and len(value) == len(targets)
+    for i, node in enumerate(targets):
+        node.setdefault("over", {})[f"{o}/{v}"] = float(value[i]) if is_arr else float(value)
+    return m, len(targets)
+
+
+def check_overrides(model, ops, vectorize, seed=0, share_nodes=True):
+    """C07-B: apply a sequence of override operations through the real API and to the MDL, then C01 clauses on the result."""
+    tpl = mdl.build_templates(model, share_nodes=share_nodes)
+    expected = model
+    kw = {}
+    try:
+        for op in ops:
+            if op[0] == "update_var":
+                val = np.asarray(op[2], dtype=float) if isinstance(op[2], list) else op[2]
+                tpl.update_var(node_vars={op[1]: val})
+                expected, _ = mdl_override(expected, op[1], op[2])
+            elif op[0] == "edge":
+                tpl.update_var(edge_vars=[(op[1], op[2], {"weight": op[3]})])
+                import copy
+                expected = copy.deepcopy(expected)
+                hit = [e for e in expected["edges"] if e["src"] == op[1] and e["tgt"] == op[2]]
+                hit[0]["w"] = op[3]
+            elif op[0] == "node_values":
+                kw.setdefault("node_values", {})[op[1]] = op[2]
+                expected, _ = mdl_override(expected, op[1], op[2])
+            else:
+                raise ValueError(op)
+        comp = compile_model(expected, vectorize=vectorize, tpl=tpl, **kw)
+    except Exception as exn:
+        return [dict(clause="override operations and compilation succeed on a well-formed request", observed=f"{type(exn).__name__}: {exn}")]
+    rng = np.random.default_rng(seed)
+    fails = check_vector_field(expected, comp, rng, n_states=2, n_param_draws=0, vectorized=vectorize)
+    if vectorize and not fails:
+        # parameter values of merged nodes: read them through the returned arguments by frontend name where possible
+        pass
+    return fails
